@@ -47,6 +47,8 @@ func run(r *vkit.Report) {
 	r.Assume("stream.Merge inputs honour the context they are given (ProbeStream.HonourCtx); the consumer never calls Next concurrently with Close and always calls Close")
 	r.Assume("after stream.Merge first reports an error no further Next is issued: stickiness of the error is not judged")
 	r.Assume("which of several input errors is 'first' is not judged: any error that some input's Next had already returned is accepted")
+	r.Assume("a Next given a done context by the consumer may return a value, End, an input's error or that context's error: all are accepted, and after the context's error the consumer carries on; what is judged is that nothing is lost or duplicated and the stream still ends as its inputs do")
+	r.Assume("in plans where the consumer uses contexts of its own, failing inputs return only error values that are not identical to context.Canceled / context.DeadlineExceeded, so the consumer can tell the two apart")
 
 	workers := 8
 	if g := runtime.GOMAXPROCS(0); g < 4 {
@@ -59,6 +61,7 @@ func run(r *vkit.Report) {
 	nClose := r.Scale(3000, 12000)
 	nRand := r.Scale(3000, 12000)
 	nReg := r.Scale(10*nRegress, 40*nRegress)
+	nCtx := r.Scale(1500, 6000)
 
 	r.Cases("regress", nReg, workers, regressCase)
 	r.Cases("chans-merge", nMerge, workers, chansMergeCase)
@@ -66,6 +69,7 @@ func run(r *vkit.Report) {
 	r.Cases("smerge-err", nErr, workers, smergeErrCase)
 	r.Cases("smerge-close", nClose, workers, smergeCloseCase)
 	r.Cases("smerge-rand", nRand, workers, smergeRandCase)
+	r.Cases("smerge-ctx", nCtx, workers, smergeCtxCase)
 
 	// Coverage floors (all functions of the case lists, not of the schedule).
 	for _, p := range []string{"reflect(0)", "range(1)", "merge2", "merge3", "reflect(4)", "reflect(7)"} {
@@ -79,6 +83,10 @@ func run(r *vkit.Report) {
 	r.Floor("stream.Merge runs with zero inputs", r.Table("stream.Merge arity", "0"), 8)
 	r.Floor("stream.Merge Close with an input blocked forever in Next", r.Table("stream.Merge", "closed with a never-ending input"), int64(nClose/10))
 	r.Floor("stream.Merge read to End", r.Table("stream.Merge outcome", "end"), int64(nRand/10))
+	for _, k := range errKindNames {
+		r.Floor("stream.Merge (input, error position) combinations run with error value "+k, r.Table("stream.Merge enumerated error value", k), int64(len(errCombos())))
+	}
+	r.Floor("stream.Merge plans in which the consumer uses done / expiring contexts of its own", r.Table("stream.Merge", "plans with consumer contexts"), int64(nCtx/2))
 	r.Floor("stream.Merge leak checks", r.Table("stream.Merge", "leak checks"), int64((nErr+nClose+nRand)/2))
 }
 
